@@ -1161,7 +1161,8 @@ impl Defs {
 
         self.enums.keys()
             .map(|candidate| (candidate, strsim::osa_distance(input.as_str(), candidate.as_str())))
-            .min_by_key(|&(_, distance)| distance)
+            // (break ties by name; the iteration order of the table is not stable between runs)
+            .min_by_key(|&(candidate, distance)| (distance, candidate))
             .filter(|&(_, distance)| distance <= max_distance)
             .map(|(candidate, _)| candidate.clone())
     }
